@@ -68,7 +68,8 @@ PROPS = {
         "trusted_base": ["pipeline handlers transcribed as thread programs in Model/Pipeline.lean"],
     },
     "C08": {
-        "theorems": thms(P + "C08", ["ackTime_inv", "resetAcks_inv", "setSent_inv", "addOutbox_inv", "C08_ack_only_sent_rows", "C08_requeue_exactly", "C08_only_unsent_transmitted"]),
+        "theorems": {**thms(P + "C08", ["ackTime_inv", "resetAcks_inv", "setSent_inv", "addOutbox_inv", "C08_ack_only_sent_rows", "C08_requeue_exactly", "C08_only_unsent_transmitted"]),
+                     "LospanVerif.Props.C08All": ["LospanVerif.Props.C08.C08_lifecycle_all_schedules", "LospanVerif.Props.C08.linv_step"]},
         "ties": PIPE_TIES,
         "engines": ["pipeseq"],
         "assumptions": ["wall-clock values abstracted to zero / non-zero"],
